@@ -23,7 +23,7 @@ def cases(tier):
     combos = [[0, 1], [0, 2], [0, 1, 2], [0, 3, 1]] if tier == 'quick' else [[0, 1], [0, 2], [0, 1, 2], [0, 3, 1], [0, 1, 2, 3], [3, 3, 2]]
     for combo in combos:
         for perm in set(itertools.permutations(range(len(combo)))):
-            cfg = {'scenario': 'batch', 'n': 4, 'x': 2, 'members': [dict(kinds[c], values='sym') for c in combo], 'verify_order': list(perm),
+            cfg = {'scenario': 'batch', 'n': 4, 'x': 2, 'members': [dict(kinds[c], values='sym', label='member %d' % ci) for ci, c in enumerate(combo)], 'verify_order': list(perm),
                    'actions': ['RecoverAndVerify', 'RecoverOnly', 'VerifyOnly']}
             out.append({'cfg': cfg, 'name': 'batch %s order %s' % (combo, list(perm))})
     return out
